@@ -266,6 +266,11 @@ func (a *AddExp) Eval(env Env) (Exp, bool) {
 				newTerms = append(newTerms, evalTail) // 定数項を戻します
 			}
 		} else {
+			// 「定数 - 非定数」 (8 - EBX, 0x100 - lab) は、非定数項を先頭に並べ替えると符号が失われて
+			// 「非定数 + 定数」になってしまう。表現できないので、この式は簡約しない。
+			if op == "-" && len(newTerms) == 0 {
+				return a, false
+			}
 			// 定数でない場合は、項のリストに追加します
 			// 先行する項があった場合にのみ演算子を追加します
 			if len(newTerms) > 0 { // 最初の項でない場合に演算子を追加します
